@@ -68,7 +68,7 @@ class C12(UdpCheck):
         dt = rng.choice([d for d in (1 / 240, 1 / 120, 1 / 60, 1 / 60, 1 / 30, 1 / 15) if d <= max(interval, 1 / 60) + 1e-12])
         lat = rng.choice([0.0, 0.001, 0.01, 0.05, 0.2])
         jit = rng.choice([0.0, 0.0, 0.005, 0.05])
-        scen = ["idle", "outage", "cut", "cut", "unanswered", "setters", "setters", "ctx", "idle", "outage"][i % 10]
+        scen = ["idle", "outage", "cut", "cut", "unanswered", "setters", "setters", "ctx", "idle", "outage", "neighbour-error"][i % 11]
         if tier == "quick" and i in (0, 1):
             scen = "idle-long"
         elif tier == "thorough" and i % 400 == 0:
@@ -112,6 +112,16 @@ class C12(UdpCheck):
             cfg["phases"].append({"t0": 2.98, "t1": 3.0 + 3 * max(interval, 1 / 60) + 0.03, "src": "S", "dst": "c1", "cut": True})
             cfg["ctx"] = {"temp_timeout": ttemp, "msg_timeout": smsg}
             cfg["duration"] = 8.0
+        elif scen == "neighbour-error":
+            # two idle clients; for a while the kernel refuses every datagram the server sends towards the FIRST one
+            # (ENOBUFS / unreachable). The second client's network is fine: its connection must stay up.
+            cfg["clients"].append(dict(cfg["clients"][0], t0=0.02))
+            plan = [{"op": "connect", "c": 0, "t": 0.05, "cb": True}, {"op": "connect", "c": 1, "t": 0.6, "cb": True}]
+            t0 = round(2.0 + rng.random() * 2.0, 3)
+            d = rng.choice([1.0, 3.0, 8.0])
+            plan.append({"op": "sockerr", "t": t0, "d": d, "c": 0})
+            cfg["neighbour"] = {"t": t0, "d": d}
+            cfg["duration"] = t0 + d + 8.0
         elif scen == "outage":
             # a transient outage, shorter than both liveness timeouts, that swallows many consecutive datagrams
             # (often more than the 32-packet window), then a healed network: the connection must survive
@@ -277,6 +287,21 @@ class C12(UdpCheck):
                 # the link is idle, so the observed cadence IS the keep-alive interval in effect
                 vs.append({"kind": "setter_without_effect", "key": "keep_alive:%s" % self._when(case, "keep_alive"),
                            "detail": {"configured": eff_c_keep, "observed_max_gap": round(gc, 4)}})
+        if scen == "neighbour-error":
+            w.reached = bool(w.probes.get("server_sendto_error_injected"))
+            st1 = [(t, st) for t, name, inc, st in w.status_log if name == "c1"]
+            disc1 = [e[0] for e in w.hev if e[1] == "disconnect" and tuple(e[4]) == w.clients[1].addr]
+            if not any(st == "CONNECTED" for t, st in st1):
+                w.vacuous = True
+                return vs
+            if any(st in ("DROPPED", "DISCONNECTED") for t, st in st1) or disc1:
+                vs.append({"kind": "send_error_towards_one_client_broke_another_connection", "key": cfg["entry"],
+                           "detail": {"neighbour": cfg["neighbour"], "statuses_c1": st1[-3:], "handler_disconnect_c1": disc1[:1]}})
+            for name, typ, msg in w.thread_exits:
+                if typ != "SimAbort":
+                    vs.append({"kind": "server_thread_died", "key": typ, "detail": msg})
+            gap_check(("S", "c1"), 1.5, w.k.now, s_keep + max(interval, 1 / 60) + interval, "server")
+            return vs
         if scen == "outage":
             o = cfg["outage"]
             if t_connected is None or t_connected > o["t"]:
